@@ -2123,6 +2123,22 @@ static program_t *epilog ()
   ident_hash_elem_t *ihe;
   program_t *prog;
 
+  /* Addresses inside a program (function addresses, branch and switch table
+   * operands, program_size itself) are unsigned 16 bit numbers, and the
+   * function address USHRT_MAX marks a dropped entry: the code, with the
+   * variable initializers and their return appended below, has to fit. */
+  if (num_parse_error == 0 && !inherit_file)
+    {
+      size_t code_size;
+
+      UPDATE_PROGRAM_SIZE;
+      code_size = mem_block[A_PROGRAM].current_size;
+      if (mem_block[A_INITIALIZER].current_size)
+        code_size += mem_block[A_INITIALIZER].current_size + 1;
+      if (code_size > USHRT_MAX)
+        yyerror ("Program too large (the compiled code may not exceed 65535 bytes).");
+    }
+
   if (num_parse_error > 0 || inherit_file)
     {
       /* don't print these; they can be wrong, since we didn't parse the
